@@ -54,6 +54,7 @@ func runC12(w *World) {
 			dir = DirIn
 		}
 		st := w.Draw(3, "state")
+		second := !passive && w.Chance(1, 4, "second-conn")
 		// ---- acquire a connection in the target state ----
 		var c *Conn
 		if dir == DirOut {
@@ -69,6 +70,18 @@ func runC12(w *World) {
 				return
 			}
 		} else {
+			// sometimes an outbound connection is in progress (OpenSent) as well: a
+			// protocol error on the inbound one must drop both. It is acquired
+			// first, so that no virtual time passes once c's hold timer runs.
+			if second && st < StEstablished {
+				p.Site.DialPolicy = nil
+				if dl := p.Site.WaitDial(bound); dl != nil {
+					if c2 := dl.Accept(); c2 != nil && ExpectOpen(c2, time.Second) != nil {
+						w.Probe("second-connection-in-progress")
+					}
+				}
+				w.Quiesce()
+			}
 			p.Site.DialPolicy = refuseAll
 			// a pending attempt would collide with our inbound connection: refuse it
 			for _, dl := range p.Site.DialList() {
@@ -84,6 +97,13 @@ func runC12(w *World) {
 			return
 		}
 		p.Site.DialPolicy = refuseAll
+		if second && dir == DirOut && st < StEstablished {
+			// an inbound connection in OpenSent next to the outbound one (zero virtual time)
+			if c2 := e.OpenConn(p, DirIn, time.Minute); c2 != nil && ExpectOpen(c2, time.Second) != nil {
+				w.Probe("second-connection-in-progress")
+			}
+			w.Quiesce()
+		}
 		// avoid an amnesia tie
 		if tLast >= 0 {
 			if g := w.Now() - tLast - 300*time.Second; g > -10*time.Millisecond && g < 10*time.Millisecond {
@@ -178,10 +198,16 @@ func runC12(w *World) {
 		// (a) every connection of the peer is closed
 		for _, x := range p.Site.ConnList() {
 			if x.Handed && !x.LocalClosed() {
+				if !damp && x != c {
+					// a non-damping event ends its own connection only; get rid of the other one
+					x.FIN()
+					continue
+				}
 				w.Violate("C12/connection-not-dropped", "after %s connection %s is still open", name, x)
 				return
 			}
 		}
+		w.Quiesce()
 		takeAll()
 		nd := p.Site.NDials()
 		if !damp {
